@@ -159,6 +159,10 @@ def area_points(rng, t, n):
 
 
 # ------------------------------------------------------------------------------------------------ plume
+class AmbiguousAngle(Exception):
+    pass
+
+
 def plume_world(rng, sph, dateline=False):
     ctx = wg.gen_ctx(rng, sph, exotic=False)
     doc = {}
@@ -196,6 +200,8 @@ def plume_reference(t, sx, sy, depth, alias=True):
         A = (1 - f) * a[i - 1] + f * a[i]
         E = (1 - f) * e[i - 1] + f * e[i]
         dd = ang[i] - ang[i - 1]
+        if abs(abs(dd) - 180.0) < 1e-6:
+            raise AmbiguousAngle()       # both ways round are 'the shortest way'
         if abs(dd) > 180.0:
             dd -= math.copysign(360.0, dd)
         alpha = ang[i - 1] + f * dd
@@ -246,10 +252,13 @@ def plume_points(rng, t, n):
         if ctx.sph:
             sy = max(-89.0, min(89.0, sy))
             sx = ((sx + 180.0) % 360.0) - 180.0
-        inside, margin = plume_reference(t, sx, sy, d)
+        try:
+            inside, margin = plume_reference(t, sx, sy, d)
+            noalias_inside, _m = plume_reference(t, sx, sy, d, alias=False)
+        except AmbiguousAngle:
+            continue
         if margin < 1e-9 and d0 <= d <= d1:
             continue
-        noalias_inside, _m = plume_reference(t, sx, sy, d, alias=False)
         head = d0 <= d < depths[0]
         out.append((sx, sy, d, inside, (head or abs(margin) < 0.3), inside != noalias_inside))
     return out
